@@ -118,6 +118,10 @@ def describe_result(r):
 def main():
     req = json.load(sys.stdin)
     out = []
+    hv0 = []
+    # earlier callers wrecked every graph the package handed them (see _poison.py); no effect unless state is shared
+    import _poison
+    _poison.poison_graph_factories()
     for g in req['groups']:
         res = {'id': g['id']}
         try:
@@ -136,15 +140,23 @@ def main():
             res['error_text'] = str(ex)[:200]
         res['inputs_unchanged'] = all(sc.identical(env[k], snap[k], equal_nan=True) for k in env)
         out.append(res)
+        if not req.get('no_history_pass') and len(hv0) < 5:
+            import _histpass
+            first = {'result': res['result']} if 'result' in res else {'error': res.get('error')}
+            fn = (g['expr'].get('call', '?') if isinstance(g['expr'], dict) else '?').split(':')[-1]
+            for v in _histpass.checks(lambda e: evaluate(g['expr'], e), env, describe_result, first, fn, sc):
+                v['replay']['group'] = g
+                hv0.append(v)
     # History independence: forget the package's module state (caches, module-level tables), evaluate the same
     # groups again in REVERSE order on freshly built operands and require bit-identical results.  A cache keyed too
     # coarsely (unit but not dtype, values but not unit) or a module-level table updated in place gives another
     # answer when the calls arrive in another order.
-    hv = []
+    hv = hv0
     if not req.get('no_history_pass'):
         for m in list(sys.modules):
             if m == 'scippneutron' or m.startswith('scippneutron.'):
                 del sys.modules[m]
+        _poison.poison_graph_factories()
         first = {r['id']: r for r in out}
         for g in reversed(req['groups']):
             r1 = first[g['id']]
